@@ -28,8 +28,8 @@ def run(repo, run, tier):
             raise
         run.notes.append("C16.8 not evaluated (%s): the layout rule C16.4 already reports this loop" % e)
         run.rules.pop("C16.8", None)
-    fd_extrapolation(repo, run, tier)
     wrapper_statelessness(repo, run)
+    fd_extrapolation(repo, run, tier)
 
 
 # ------------------------------------------------------------------------------------------------
@@ -805,6 +805,19 @@ def wrapper_statelessness(repo, run):
         for st, a in writes:
             run.report("C16.7", UTL, st, "JacobianWrapper.%s stores `self.%s` while evaluating: what is stored is reused by later calls, which may be made at another state, "
                                          "dtype or time (a Jacobian computed from values cached by an earlier call)" % (meth, a))
+    # ... and the attribute an evaluation is allowed to write (`order`, the order it reached) is a REPORT: nothing the wrapper computes with may read it back - the
+    # depth an adaptive call stopped at would otherwise configure (cap) every later call on the same wrapper
+    cls = repo.get(UTL, "JacobianWrapper")
+    for meth in [f for f in cls.body if isinstance(f, (ast.FunctionDef, ast.AsyncFunctionDef)) and f.name != "__init__"]:
+        reads = [x for x in ast.walk(meth) if isinstance(x, ast.Attribute) and isinstance(x.ctx, ast.Load) and is_self_attr(x) and x.attr in allowed]
+        run.judged(rid, "JacobianWrapper.%s reads none of the attributes written while evaluating (%s)" % (meth.name, sorted(allowed)), ok=not reads)
+        for x in reads:
+            st = x
+            while not isinstance(st, ast.stmt):
+                st = st._parent
+            run.report("C16.7", UTL, st, "JacobianWrapper.%s reads `self.%s`, which adaptive_richardson overwrites with the depth at which an earlier call converged: the "
+                                         "number of extrapolation levels of a call then depends on the calls made before it (a wrapper used at a smooth point first is capped "
+                                         "at that depth when it is called at a sharper point)" % (meth.name, x.attr), text="evaluation reads self.%s" % x.attr)
 
 
 # ------------------------------------------------------------------------------------------------
